@@ -453,6 +453,7 @@ type FracInfo struct {
 	From, To  uint64
 	Sealed    bool
 	CreatedMs uint64
+	Size      uint64
 }
 
 // Fracs lists the store's fractions in list order.
@@ -463,7 +464,7 @@ func (st *Store) Fracs() []FracInfo {
 	}
 	for _, f := range st.FM.GetAllFracs() {
 		i := f.Info()
-		out = append(out, FracInfo{Name: i.Name(), Docs: i.DocsTotal, From: uint64(i.From), To: uint64(i.To), Sealed: i.SealingTime != 0, CreatedMs: i.CreationTime})
+		out = append(out, FracInfo{Name: i.Name(), Docs: i.DocsTotal, From: uint64(i.From), To: uint64(i.To), Sealed: i.SealingTime != 0, CreatedMs: i.CreationTime, Size: i.FullSize()})
 	}
 	return out
 }
